@@ -23,21 +23,56 @@ func init() {
 		"VerifyIDTokenHint()":            "Hand.teVerifyIDTokenHint now",
 		"unimplementedGrantError()":      "Hand.unimplementedGrantError",
 		"AuthorizeTokenExchangeClient()": "Hand.teAuthorizeClient now",
-		"CreateAccessToken()":            "Hand.texCreateAccessToken (createTokens now) now",
-		"CreateIDToken()":                "Hand.texCreateIDToken now",
+		"CreateAccessToken()":            "Hand.texAsTokenRequest (CreateAccessToken now)",
+		"client.AccessTokenType()":       "((((creator).Storage)).ClientAccessTokenType client)",
+		"CreateIDToken()":                "Hand.texAsIDTokenRequest (CreateIDToken now)",
 		"oidc.TokenExchangeResponse{}":   "ExchangeResp.mk",
 	}
+	// issuance of the access token itself (deep3): CreateAccessToken / CreateJWT / CreateBearerToken / removeUserinfoScopes
+	with := func(extra map[string]string) map[string]string {
+		m := map[string]string{}
+		for k, v := range ren {
+			m[k] = v
+		}
+		for k, v := range extra {
+			m[k] = v
+		}
+		return m
+	}
+	issue := map[string]string{
+		"oidc.ScopeProfile": "TEConst.ScopeProfile", "oidc.ScopeEmail": "TEConst.ScopeEmail",
+		"oidc.ScopeAddress": "TEConst.ScopeAddress", "oidc.ScopePhone": "TEConst.ScopePhone",
+		"AccessTokenTypeJWT":          "TEConst.AccessTokenTypeJWT",
+		"oidc.NewAccessTokenClaims()": "Hand.teNewAccessTokenClaims now",
+		"SignerFromKey()":             "Hand.teSignerFromKey",
+		"crypto.Sign()":               "Hand.teSignAT",
+		"crypto.Encrypt()":            "(crypto).Encrypt",
+	}
+	const tok = "pkg/op/token.go"
 	// the storage policy receives the request by pointer and may rewrite it (SetSubject, SetCurrentScopes, SetRequestedTokenType)
 	outParams["teStorage.ValidateTokenExchangeRequest"] = OutParam{1, true}
 	outParams["teStorage.CreateTokenExchangeRequest"] = OutParam{1, true}
+	// the getters of *tokenExchangeRequest (what the storage policy and the issuance functions read of the request)
+	getter := func(name, ty string) FuncSpec {
+		return FuncSpec{File: te, Name: "tokenExchangeRequest." + name, Lean: name, Params: []string{"(r : TEReq)"}, Ret: RetVal, RetType: ty}
+	}
 	extraGroups = append(extraGroups, []Group{
 		{Out: "TETypes.lean", NS: "GenTE", Extra: teMethodSets},
+		{Out: "TEGetters.lean", NS: "GenTEGet", Imports: []string{"OidcModel.Model.ExchangeTEReq"}, Opens: []string{"Go"},
+			Funcs: []FuncSpec{getter("GetAMR", "List String"), getter("GetAudience", "List String"), getter("GetResourses", "List String"),
+				getter("GetAuthTime", "Int"), getter("GetClientID", "String"), getter("GetScopes", "List String"), getter("GetRequestedTokenType", "String"),
+				getter("GetExchangeSubject", "String"), getter("GetExchangeSubjectTokenType", "String"), getter("GetExchangeSubjectTokenIDOrToken", "String"),
+				getter("GetExchangeActor", "String"), getter("GetExchangeActorTokenType", "String"), getter("GetExchangeActorTokenIDOrToken", "String"),
+				getter("GetSubject", "String")}},
 		{
 			Out:     "TokenExchangeTE.lean",
 			NS:      "GenTE",
 			Imports: []string{"OidcModel.Model.ExchangeTE"},
-			Opens:   []string{"Go", "Hand", "Const", "Gen"},
+			Opens:   []string{"Go", "Hand", "Const", "Gen", "TEScoped"},
 			Funcs: []FuncSpec{
+				// oidc.TokenType.IsSupported over the regenerated table AllTokenTypes (Generated/Tables.lean)
+				{File: "pkg/oidc/token_request.go", Name: "TokenType.IsSupported", Lean: "IsSupported", Params: []string{"(t : String)"}, Ret: RetVal, RetType: "Bool",
+					Rename: map[string]string{"AllTokenTypes": "Gen.allTokenTypes"}},
 				{File: te, Name: "getTokenIDAndClaims", Lean: "getTokenIDAndClaims",
 					Params: []string{"(userinfoProvider : TEProvider)", "(accessToken : String)"}, Ret: RetVal, RetType: "(String × String × TEATClaims × Bool)",
 					Rename: ren, ZeroOf: zero},
@@ -54,15 +89,56 @@ func init() {
 						"subject", "resource", "audience", "scopes", "requestedTokenType", "clientID", "authTime"}}}},
 				{File: te, Name: "ValidateTokenExchangeRequest", Lean: "ValidateTokenExchangeRequest",
 					Params: []string{"(oidcTokenExchangeRequest : TEIn)", "(clientID clientSecret : String)", "(exchanger : TEProvider)"},
-					Ret:    RetValErr, RetType: "(TEReq × OPClient)", Rename: ren, ZeroOf: zero},
+					Ret:    RetValErr, RetType: "(TEReq × OPClient)", Rename: ren, ZeroOf: zero, GenMethods: map[string]string{"IsSupported": "IsSupported"}},
 				{File: "pkg/op/token.go", Name: "needsRefreshToken", Lean: "needsRefreshToken",
 					Params: []string{"(tokenRequest : TEAnyReq)", "(client : OPClient)"}, Ret: RetVal, RetType: "Bool", Rename: ren},
 				{File: "pkg/op/token.go", Name: "createTokens", Lean: "createTokens",
 					Params: []string{"(tokenRequest : TEAnyReq)", "(storage : TEStore)", "(refreshToken : String)", "(client : OPClient)"},
 					Ret:    RetValErr, RetType: "(String × String × Int)", Rename: ren, ZeroOf: zero, InitResults: true},
+				// the access token itself: which storage hook supplies the private claims of a JWT access token (the client's
+				// methods beyond the registry entry are the storage's: `ClientClockSkew`, `ClientRestrictAdditionalAccessTokenScopes`)
+				{File: tok, Name: "removeUserinfoScopes", Lean: "removeUserinfoScopes", Params: []string{"(scopes : List String)"},
+					Ret: RetVal, RetType: "List String", Imperative: true, LoopStyle: "state", Rename: issue},
+				{File: tok, Name: "CreateJWT", Lean: "CreateJWT",
+					Params: []string{"(issuer : String)", "(tokenRequest : TEAnyReq)", "(exp : Int)", "(id : String)", "(client : OPClient)", "(storage : TEStore)"},
+					Ret:    RetValErr, RetType: "String", JoinIf: true, LetIf: true, ZeroOf: zero,
+					Rename: with(map[string]string{"oidc.NewAccessTokenClaims()": issue["oidc.NewAccessTokenClaims()"], "SignerFromKey()": issue["SignerFromKey()"],
+						"crypto.Sign()":      "Hand.teSignAT",
+						"client.ClockSkew()": "((storage).ClientClockSkew client)",
+						"client.RestrictAdditionalAccessTokenScopes()": "((storage).ClientRestrictAdditionalAccessTokenScopes client)"})},
+				// the ID token: which storage hook fills the userinfo (and with it the `act` member)
+				{File: tok, Name: "CreateIDToken", Lean: "CreateIDToken",
+					Params: []string{"(issuer : String)", "(request : TEAnyReq)", "(validity : Int)", "(accessToken code : String)", "(storage : TEStore)", "(client : OPClient)"},
+					Ret:    RetValErr, RetType: "String", JoinIf: true, LetIf: true, ZeroOf: zero,
+					LocalOut: map[string]OutParam{"teStorage.SetUserinfoFromTokenExchangeRequest": {1, true}, "storage.SetUserinfoFromScopes": {1, true},
+						"fromRequest.SetUserinfoFromRequest": {1, true}},
+					Rename: with(map[string]string{"oidc.NewIDTokenClaims()": "Hand.teNewIDTokenClaims now", "new(oidc.UserInfo)": "({} : TEUserInfo)",
+						"SignerFromKey()": issue["SignerFromKey()"], "crypto.Sign()": "Hand.teSignID", "oidc.ClaimHash()": "Hand.teClaimHash",
+						"client.ClockSkew()":                       "((storage).ClientClockSkew client)",
+						"client.RestrictAdditionalIdTokenScopes()": "((storage).ClientRestrictAdditionalIdTokenScopes client)",
+						"client.IDTokenUserinfoClaimsAssertion()":  "((storage).ClientIDTokenUserinfoClaimsAssertion client)"})},
+				{File: tok, Name: "CreateBearerToken", Lean: "CreateBearerToken",
+					Params: []string{"(tokenID subject : String)", "(crypto : TECrypto)"}, Ret: RetValErr, RetType: "String", Rename: issue},
+				{File: tok, Name: "CreateAccessToken", Lean: "CreateAccessToken",
+					Params: []string{"(tokenRequest : TEAnyReq)", "(accessTokenType : Nat)", "(creator : TEProvider)", "(client : OPClient)", "(refreshToken : String)"},
+					Ret:    RetValErr, RetType: "(String × String × Int)", ZeroOf: zero, InitResults: true, LetIf: true,
+					Rename: map[string]string{"AccessTokenTypeJWT": issue["AccessTokenTypeJWT"], "client.ClockSkew()": "((((creator).Storage)).ClientClockSkew client)"}},
 				{File: te, Name: "CreateTokenExchangeResponse", Lean: "CreateTokenExchangeResponse",
 					Params: []string{"(tokenExchangeRequest : TEReq)", "(client : OPClient)", "(creator : TEProvider)"},
 					Ret:    RetValErr, RetType: "ExchangeResp", Rename: ren, ZeroOf: zero},
+				// the Server router's path to the same two functions
+				{File: "pkg/op/op.go", Name: "Provider.GrantTypeTokenExchangeSupported", Lean: "GrantTypeTokenExchangeSupported",
+					Params: []string{"(o : TEProvider)"}, Ret: RetVal, RetType: "Bool", Rename: map[string]string{"o.storage": "((o).Storage)"}},
+				{File: "pkg/op/server_legacy.go", Name: "LegacyServer.TokenExchange", Lean: "LegacyTokenExchange",
+					Params: []string{"(s : TELegacyServer)", "(r : TEClientRequest)"}, Ret: RetValErr, RetType: "ExchangeResp",
+					GenMethods: map[string]string{"GrantTypeTokenExchangeSupported": "GrantTypeTokenExchangeSupported"},
+					Rename:     with(map[string]string{"NewResponse()": "Hand.teNewResponse"})},
+				{File: "pkg/op/server_http.go", Name: "webServer.tokenExchangeHandler", Lean: "tokenExchangeHandler",
+					Params: []string{"(s : TEWebServer)", "(r : TEHttpReq)", "(client : OPClient)"}, Ret: RetResp, RetType: "TEHttp",
+					DropArgs: []string{"w", "s.getLogger()"}, Writers: map[string]string{"WriteError": "Hand.teWriteError", "resp.writeOut": "TEHttp.ok resp"},
+					GenMethods: map[string]string{"IsSupported": "IsSupported"},
+					Rename: map[string]string{"decodeRequest()": "Hand.teDecodeRequest", "newClientRequest()": "Hand.teNewClientRequest",
+						"s.server.TokenExchange()": "LegacyTokenExchange now (s).server"}},
 			},
 		},
 	}...)
@@ -182,8 +258,10 @@ func teMethodSets(g *genCtx) string {
 		}
 		return true
 	})
+	// plus the interfaces `CreateJWT` asserts its token request to (`tokenRequest.(TokenActorRequest)`): not case types of the switch
+	checked := append(append([]string{}, cases...), "TokenActorRequest")
 	var sat []string
-	for _, c := range cases {
+	for _, c := range checked {
 		if strings.HasPrefix(c, "*") || ifaces[c] == nil {
 			// a concrete type: satisfied only by that very type
 			if strings.TrimPrefix(c, "*") == concrete {
@@ -208,6 +286,7 @@ func teMethodSets(g *genCtx) string {
 	sort.Strings(sat)
 	g.facts["tokenExchangeRequest_satisfies"] = sat
 	return "/-- the case types of `needsRefreshToken`'s type switch (pkg/op/token.go) that `*op.tokenExchangeRequest` satisfies: its method set\n" +
-		"    (names and signatures) contains the interface's.  Case types of the switch, in source order: " + strings.Join(cases, ", ") + " -/\n" +
+		"    (names and signatures) contains the interface's.  Case types of the switch, in source order: " + strings.Join(cases, ", ") +
+		";\n    also checked: TokenActorRequest (type assertion in `CreateJWT` / `CreateIDToken`) -/\n" +
 		"def tokenExchangeRequest_satisfies : List String := " + leanStrList(sat) + "\n"
 }
